@@ -186,212 +186,108 @@ func (v *Version) Compare(other *Version) int {
 	return 0
 }
 
-// compareALMPVersionString compares two ALMP version strings using vercmp rules
-// This implements the Arch Linux vercmp algorithm based on the precedence:
-// 1.0a < 1.0b < 1.0beta < 1.0p < 1.0pre < 1.0rc < 1.0 < 1.0.a < 1.0.1
+// compareALMPVersionString compares two ALPM version strings the way libalpm's
+// vercmp does (rpmvercmp in lib/libalpm/version.c): the strings are walked as
+// alternating separator runs and maximal alphabetic or numeric segments.
 func compareALMPVersionString(a, b string) int {
-	// Handle the specific documented precedence cases first
 	if a == b {
 		return 0
 	}
 
-	// Check if this is a direct suffix comparison (no dots separating)
-	if isDirectSuffixComparison(a, b) {
-		return compareDirectSuffixes(a, b)
-	}
+	i, j := 0, 0 // current positions in a and b
+	for i < len(a) && j < len(b) {
+		// Skip the separators (anything that is not alphanumeric)
+		iStart, jStart := i, j
+		for i < len(a) && !isALPMAlnum(a[i]) {
+			i++
+		}
+		for j < len(b) && !isALPMAlnum(b[j]) {
+			j++
+		}
 
-	// Otherwise use standard segment-by-segment comparison
-	return compareSegmentBySegment(a, b)
-}
+		// If we ran to the end of either, we are finished with the loop
+		if i >= len(a) || j >= len(b) {
+			break
+		}
 
-// isDirectSuffixComparison checks if we're comparing like "1.0" vs "1.0rc"
-func isDirectSuffixComparison(a, b string) bool {
-	// Simple heuristic: if one is a prefix of the other without separators
-	if len(a) < len(b) && b[:len(a)] == a {
-		// Check if remainder is alpha (no separators)
-		remainder := b[len(a):]
-		return len(remainder) > 0 && unicode.IsLetter(rune(remainder[0])) &&
-			!strings.ContainsAny(remainder[:1], ".+-_")
-	}
-	if len(b) < len(a) && a[:len(b)] == b {
-		// Check if remainder is alpha (no separators)
-		remainder := a[len(b):]
-		return len(remainder) > 0 && unicode.IsLetter(rune(remainder[0])) &&
-			!strings.ContainsAny(remainder[:1], ".+-_")
-	}
-	return false
-}
+		// If the separator lengths were different, the longer separator wins
+		if i-iStart != j-jStart {
+			if i-iStart < j-jStart {
+				return -1
+			}
+			return 1
+		}
 
-// compareDirectSuffixes handles cases like "1.0" vs "1.0rc"
-func compareDirectSuffixes(a, b string) int {
-	if len(a) < len(b) && b[:len(a)] == a {
-		// a is prefix of b, b has direct suffix -> a wins (1.0 > 1.0rc)
-		return 1
-	}
-	if len(b) < len(a) && a[:len(b)] == b {
-		// b is prefix of a, a has direct suffix -> b wins
-		return -1
-	}
-	// Both have suffixes, compare lexicographically
-	return strings.Compare(a, b)
-}
-
-// compareSegmentBySegment does standard version segment comparison
-// This implements a more accurate vercmp-style algorithm
-func compareSegmentBySegment(a, b string) int {
-	// Convert to segments first, handling delimiters properly
-	aSegments := splitToSegments(a)
-	bSegments := splitToSegments(b)
-
-	// Compare segment by segment
-	maxLen := len(aSegments)
-	if len(bSegments) > maxLen {
-		maxLen = len(bSegments)
-	}
-
-	for i := 0; i < maxLen; i++ {
-		var aSeg, bSeg string
-		var aMissing, bMissing bool
-
-		if i < len(aSegments) {
-			aSeg = aSegments[i]
+		// Grab the first completely alphabetic or completely numeric segment
+		iSeg, jSeg := i, j
+		isNum := isALPMDigit(a[i])
+		if isNum {
+			for i < len(a) && isALPMDigit(a[i]) {
+				i++
+			}
+			for j < len(b) && isALPMDigit(b[j]) {
+				j++
+			}
 		} else {
-			aMissing = true
+			for i < len(a) && isALPMAlpha(a[i]) {
+				i++
+			}
+			for j < len(b) && isALPMAlpha(b[j]) {
+				j++
+			}
 		}
-		if i < len(bSegments) {
-			bSeg = bSegments[i]
+		aSeg, bSeg := a[iSeg:i], b[jSeg:j]
+
+		// The segments are of different types: numeric segments are always
+		// newer than alphabetic segments
+		if bSeg == "" {
+			if isNum {
+				return 1
+			}
+			return -1
+		}
+
+		var cmp int
+		if isNum {
+			cmp = compareALMPDigits(aSeg, bSeg)
 		} else {
-			bMissing = true
+			cmp = strings.Compare(aSeg, bSeg)
 		}
-
-		// Handle missing segments differently from empty segments
-		if aMissing && bMissing {
-			continue // both missing, equal
-		}
-		if aMissing {
-			return -1 // missing < present (even if empty)
-		}
-		if bMissing {
-			return 1 // present (even if empty) > missing
-		}
-
-		// Compare segments (both present)
-		cmp := compareSegments(aSeg, bSeg)
 		if cmp != 0 {
 			return cmp
 		}
 	}
 
-	return 0
-}
-
-// splitToSegments splits a version string into segments following vercmp rules
-// vercmp alternates between alpha and numeric segments
-func splitToSegments(version string) []string {
-	var segments []string
-	var current strings.Builder
-	var lastWasAlpha *bool // nil = no character yet, true = alpha, false = numeric
-
-	for _, r := range version {
-		if unicode.IsLetter(r) || unicode.IsDigit(r) {
-			isAlpha := unicode.IsLetter(r)
-
-			// Check if we need to split due to alpha/numeric transition
-			if lastWasAlpha != nil && *lastWasAlpha != isAlpha {
-				// Transition between alpha and numeric - split here
-				segments = append(segments, current.String())
-				current.Reset()
-			}
-
-			current.WriteRune(r)
-			lastWasAlpha = &isAlpha
-		} else {
-			// Delimiter found - end current segment
-			if current.Len() > 0 {
-				segments = append(segments, current.String())
-				current.Reset()
-				lastWasAlpha = nil
-			}
-			// Add empty segment for delimiter (preserving empty segments)
-			segments = append(segments, "")
-		}
-	}
-
-	// Add final segment if any content remains
-	if current.Len() > 0 {
-		segments = append(segments, current.String())
-	}
-
-	return segments
-}
-
-// compareSegments compares individual segments using vercmp rules
-func compareSegments(a, b string) int {
-	// Handle empty segments according to vercmp "final showdown" rules
-	if a == "" && b == "" {
+	// All segments compared identically up to the end of one of the strings
+	aDone, bDone := i >= len(a), j >= len(b)
+	if aDone && bDone {
 		return 0
 	}
-	if a == "" {
-		// Empty segment vs non-empty segment
-		// In vercmp, empty segments can be greater than non-empty in certain contexts
-		return 1 // empty > non-empty
-	}
-	if b == "" {
-		// Non-empty vs empty segment
-		return -1 // non-empty < empty
-	}
 
-	// Both non-empty segments
-	aIsNum := len(a) > 0 && unicode.IsDigit(rune(a[0]))
-	bIsNum := len(b) > 0 && unicode.IsDigit(rune(b[0]))
-
-	if aIsNum && bIsNum {
-		return compareALMPDigits(a, b)
-	} else if aIsNum {
-		return 1 // numeric > alpha
-	} else if bIsNum {
-		return -1 // alpha < numeric
-	} else {
-		return strings.Compare(a, b) // both alpha
+	// A remaining alphabetic segment never beats an empty string (1.0rc < 1.0),
+	// anything else remaining makes the version newer (1.0 < 1.0.1, 1.0 < 1.0.a)
+	if (aDone && !isALPMAlpha(b[j])) || (!aDone && isALPMAlpha(a[i])) {
+		return -1
 	}
+	return 1
 }
+
+func isALPMDigit(c byte) bool { return c >= '0' && c <= '9' }
+func isALPMAlpha(c byte) bool { return (c >= 'a' && c <= 'z') || (c >= 'A' && c <= 'Z') }
+func isALPMAlnum(c byte) bool { return isALPMDigit(c) || isALPMAlpha(c) }
 
 // compareALMPDigits compares digit strings numerically
 func compareALMPDigits(a, b string) int {
-	// Empty string is treated as 0
-	if a == "" && b == "" {
-		return 0
-	}
-	if a == "" {
-		return -1
-	}
-	if b == "" {
-		return 1
-	}
-
-	// Convert to integers for comparison
-	aNum, aErr := strconv.ParseUint(a, 10, 64)
-	bNum, bErr := strconv.ParseUint(b, 10, 64)
-
-	if aErr == nil && bErr == nil {
-		if aNum < bNum {
-			return -1
-		}
-		if aNum > bNum {
-			return 1
-		}
-		return 0
-	}
-
-	// Fallback for very large numbers that don't fit in uint64
-	// Compare by length first (longer number is larger)
+	// Compare as integers of any length without converting them: ignore
+	// leading zeros, then the longer run is the larger number, and runs of
+	// equal length compare digit by digit.
+	a = strings.TrimLeft(a, "0")
+	b = strings.TrimLeft(b, "0")
 	if len(a) < len(b) {
 		return -1
 	}
 	if len(a) > len(b) {
 		return 1
 	}
-
-	// If lengths are equal, string comparison works for digits
 	return strings.Compare(a, b)
 }
